@@ -25,8 +25,8 @@ NTORN = {'quick': 10, 'thorough': 40}
 def make_items(ctx, only=None):
     items = {}
     n = NWL[ctx.tier]
-    for i in range(n):
-        name = 'wl%03d' % i
+    for i in list(range(n)) + [1004]:     # wlx04: a hand-made workload on top of the generated ones
+        name = 'wl%03d' % i if i < 1000 else 'wlx%02d' % (i - 1000)
         if only and name != only:
             continue
         rng = C.Prng(C.mix_seed(ctx.seed, 31, 7, i))
@@ -52,7 +52,7 @@ def make_items(ctx, only=None):
                             {'path': 'plugins/b/libshapes.so', 'v1': 'shapes_v3', 'v2': 'shapes_v3'}, {'path': 'lib/libcxx.so', 'v1': 'cxx_v1', 'v2': 'cxx_v1'},
                             {'path': 'plugins/a/libcxx.so', 'v1': 'cxx_v2', 'v2': 'cxx_v2'}],
                   'format': 'dir', 'abignore': 'none', 'options': ['--no-default-suppression'], 'self_check': True}
-        if i == 4:
+        if i == 1004:
             # split debug info in archives: the debug-info packages are extracted by further tasks of the extraction queues, and
             # every comparison task looks its debug info up in the shared trees
             wl = {'files': [{'path': 'lib/libshapes.so', 'v1': 'shapes_v0', 'v2': 'shapes_v2'}, {'path': 'lib/libcxx.so', 'v1': 'cxx_v0', 'v2': 'cxx_v2'},
